@@ -67,7 +67,7 @@ class Intercept:
         """
         if isinstance(other, type(self)):
             return Model()
-        elif isinstance(other, NegatedIntercept):
+        elif isinstance(other, (NegatedIntercept, Term, GroupSpecificTerm)):
             return self
         elif isinstance(other, Model):
             if any(isinstance(term, type(self)) for term in other.common_terms):
@@ -255,7 +255,8 @@ class Term:
         # f(x) + (y + z) -> f(x) + y + z
         if self == other:
             return self
-        elif isinstance(other, type(self)):
+        elif isinstance(other, (type(self), GroupSpecificTerm, Intercept, NegatedIntercept)):
+            # "x + 1" and "x + 0" appear in the expr side of group-specific terms: (x + 0 | g)
             return Model(self, other)
         elif isinstance(other, Model):
             return Model(self) + other
@@ -284,6 +285,11 @@ class Term:
                 return Model()
             else:
                 return self
+        elif isinstance(other, Intercept):
+            # "x - 1" removes the intercept, like "x + 0"
+            return Model(self, NegatedIntercept())
+        elif isinstance(other, GroupSpecificTerm):
+            return self
         else:  # pragma: no cover
             return NotImplemented
 
@@ -633,6 +639,17 @@ class GroupSpecificTerm:
 
     def __hash__(self):
         return hash((self.expr, self.factor))
+
+    def __add__(self, other):
+        """Addition operator. Analogous to set union."""
+        if self == other:
+            return self
+        elif isinstance(other, (Term, type(self), Intercept, NegatedIntercept)):
+            return Model(self, other)
+        elif isinstance(other, Model):
+            return Model(self) + other
+        else:  # pragma: no cover
+            return NotImplemented
 
     def __repr__(self):  # pragma: no cover
         return self.__str__()
